@@ -28,12 +28,14 @@ static int pm(int p, const char *s)
 }
 
 /* command lists: ex text and a reference interpretation */
-enum { L_D, L_M1D, L_P1D, L_DOTP1D, L_S1, L_S2, L_PU, L_0PU, L_I, L_A, L_C, L_M1A, L_DPU, L_SM1D, L_GD, L_GS, L_YPU, L_KD, NLIST };
+enum { L_D, L_M1D, L_P1D, L_DOTP1D, L_S1, L_S2, L_PU, L_0PU, L_I, L_A, L_C, L_M1A, L_DPU, L_SM1D, L_GD, L_GS, L_YPU, L_KD, L_C2, L_I2, L_A2, L_CR, NLIST };
 static const char *list_txt[NLIST] = {
 	"d", "-1d", "+1d", ".,+1d", "s/a/b/", "s/a/ab/g", "pu a", "0pu a", "i", "a", "c", "-1a", "d|pu", "s/a/c/|-1d",
-	"g/b/d", "g/a/s/a/b/", "y b|pu b", "ka|'ad",
+	"g/b/d", "g/a/s/a/b/", "y b|pu b", "ka|'ad", "c", "i", "a", ".,+1c",
 };
-static const int list_blocks[NLIST] = {0, 0, 0, 0, 0, 0, 0, 0, 1, 1, 1, 1, 0, 0, 0, 0, 0, 0};
+static const int list_blocks[NLIST] = {0, 0, 0, 0, 0, 0, 0, 0, 1, 1, 1, 1, 0, 0, 0, 0, 0, 0, 1, 1, 1, 1};
+/* text blocks: single line "x" (or "a" for -1a); the last four lists use two-line blocks whose lines match the patterns */
+static const char *list_block_text[NLIST] = {0, 0, 0, 0, 0, 0, 0, 0, "x\n", "x\n", "x\n", "a\n", 0, 0, 0, 0, 0, 0, "a\nab\n", "a\nb\n", "ab\n\n", "b\n"};
 
 static void subst(struct xm *m, int idx, const char *from, const char *to, int g)
 {
@@ -109,6 +111,10 @@ static int exec_list(struct xm *m, int l)
 	case L_I: return rel(m, XC_I, 0, 0, 0, 0, 0, "x\n", 0);
 	case L_A: return rel(m, XC_A, 0, 0, 0, 0, 0, "x\n", 0);
 	case L_C: return rel(m, XC_C, 0, 0, 0, 0, 0, "x\n", 0);
+	case L_C2: return rel(m, XC_C, 0, 0, 0, 0, 0, list_block_text[L_C2], 0);
+	case L_I2: return rel(m, XC_I, 0, 0, 0, 0, 0, list_block_text[L_I2], 0);
+	case L_A2: return rel(m, XC_A, 0, 0, 0, 0, 0, list_block_text[L_A2], 0);
+	case L_CR: return rel(m, XC_C, 0, 0, 1, 1, 0, list_block_text[L_CR], 0);
 	case L_M1A:
 		return rel(m, XC_A, 1, -1, 0, 0, 0, "a\n", 0);
 	case L_DPU:
@@ -159,7 +165,7 @@ static long n_glob, n_changed, n_exec_total;
 static void one_case(const char **lines, int n, int p, int ng, int rg, int l)
 {
 	struct xm m;
-	char text[256] = "", cmd[128], feed[1024] = "", exp[512] = "", pre[512];
+	char text[256] = "", cmd[128], feed[4096] = "", exp[512] = "", pre[512];
 	int ids[XM_MAXLN], nids = 0, i, b, e, execs = 0, not = ng != 0;
 	char *got;
 	/* real side: reset the buffer, registers and position */
@@ -213,8 +219,10 @@ static void one_case(const char **lines, int n, int p, int ng, int rg, int l)
 	}
 	/* real */
 	snprintf(cmd, sizeof(cmd), "%s%s/%s/%s", ranges[rg], negs[ng], pats[p], list_txt[l]);
-	for (i = 0; i < execs * list_blocks[l]; i++)
-		strcat(feed, l == L_M1A ? "a\n.\n" : "x\n.\n");
+	for (i = 0; i < execs * list_blocks[l]; i++) {
+		strcat(feed, list_block_text[l]);
+		strcat(feed, ".\n");
+	}
 	nvx_pend_pos = nvx_pend_len = 0;
 	nvx_feed(feed, -1);
 	starved = 0;
